@@ -534,24 +534,36 @@ def check_zero_derivative_kinds(model, rep):
     for k, f in sorted(model.functions.items()):
         if f.name not in ('_derivative', 'derivative') or isinstance(f.node, ast.Lambda) or f.module.short not in ('evaluable', 'function'):
             continue
+        def is_zero(b):
+            return isinstance(b, ast.Continue) or (isinstance(b, ast.Return) and b.value is not None and
+                                                   (src(b.value).startswith(('Zeros(', 'evaluable.Zeros(', 'zeros(', 'super()._derivative('))))
+        last_in_loop = {id(l.body[-1]) for l in ast.walk(f.node) if isinstance(l, (ast.For, ast.While)) and l.body}
         for s_ in ast.walk(f.node):
             if not isinstance(s_, ast.If) or not s_.body:
                 continue
-            b = s_.body[0]
-            zero = isinstance(b, ast.Continue) or (isinstance(b, ast.Return) and b.value is not None and
-                                                  (src(b.value).startswith(('Zeros(', 'evaluable.Zeros(', 'zeros(', 'super()._derivative('))))
-            if not zero:
+            # the condition under which the contribution is skipped, as a list of disjuncts (text, kinds for which it is true):
+            # the test itself when the zero branch comes first; its negation when the zero branch is the else branch or - for a
+            # conditional that ends a loop body - the implicit continue
+            if is_zero(s_.body[0]):
+                parts = s_.test.values if isinstance(s_.test, ast.BoolOp) and isinstance(s_.test.op, ast.Or) else [s_.test]
+                negate = False
+            elif (s_.orelse and is_zero(s_.orelse[0])) or (not s_.orelse and id(s_) in last_in_loop):
+                parts = s_.test.values if isinstance(s_.test, ast.BoolOp) and isinstance(s_.test.op, ast.And) else [s_.test]
+                negate = True
+            else:
                 continue
-            disjuncts = s_.test.values if isinstance(s_.test, ast.BoolOp) and isinstance(s_.test.op, ast.Or) else [s_.test]
-            for d in disjuncts:
+            for d in parts:
                 r = _dtype_true_kinds(d)
                 if r is None:
                     continue
                 n += 1
                 who, kinds = r
+                if negate:
+                    kinds = set(KINDS) - kinds
                 ok = kinds <= {'bool', 'int'}
-                rep.ob('R04.8', f.key, f.where(s_), ok, f'`{src(d)}` declares only boolean/integer data non-differentiable' if ok else
-                       f'`{src(d)}` treats {sorted(kinds - {"bool", "int"})} data of `{who}` as not differentiable: its contribution is skipped / the derivative is zero although the operand is '
+                shown = f'not ({src(d)})' if negate else src(d)
+                rep.ob('R04.8', f.key, f.where(s_), ok, f'`{shown}` declares only boolean/integer data non-differentiable' if ok else
+                       f'`{shown}` treats {sorted(kinds - {"bool", "int"})} data of `{who}` as not differentiable: its contribution is skipped / the derivative is zero although the operand is '
                        'a differentiable (complex or float) array - the derivative silently lacks a term', statement=f'zero-derivative kinds {who}')
     if n < 4:
         raise AnalysisError(f'R04.8: only {n} dtype tests leading to a zero derivative found')
